@@ -102,6 +102,22 @@ def run(check: Check):
           if body_ok:
             check.ob('R-FOLD', ev, f'for v in self.oov_target_values', True,
                      'membership accumulated as a disjunction (maximum / logical_or / sum) starting from zeros', node=n.ast)
+    # vectorised membership: any/all over a broadcast comparison with an array built from self.<values>
+    for _, c in ff.calls():
+      red = (ff.ext(c.func) or '').split('.')[-1]
+      if red not in ('any', 'all') or not c.args:
+        continue
+      cmpx = next((x for x in ff.deep_walk(c.args[0]) if isinstance(x, ast.Compare) and len(x.ops) == 1 and isinstance(x.ops[0], (ast.Eq, ast.NotEq))), None)
+      if cmpx is None:
+        continue
+      fld = next((_self_field(y) for s_ in (cmpx.left, cmpx.comparators[0]) for y in ff.deep_walk(s_) if _self_field(y) in ('oov_target_values',)), None)
+      if fld is None:
+        continue
+      n_fold += 1
+      is_or = (red == 'any' and isinstance(cmpx.ops[0], ast.Eq))
+      check.ob('R-FOLD', ev, txt(c)[:70], is_or,
+               f'membership in self.{fld} is a disjunction: any(target == values). `{red}` over `{txt(cmpx.ops[0].__class__.__name__)}` requires the '
+               'target to equal every value at once (never true for two or more values) or counts everything for an empty tuple', node=c)
     # ---- R-PAIR target weights
     tw_calls = [c for _, c in ff.calls() if wmean.repo_fn(ff, c) == f'{MOD}:get_target_weight']
     if tw_calls:
